@@ -145,6 +145,15 @@ func LiveMPD(a *asset, mpdName string, cfg *ResponseConfig, drmCfg *drm.DrmConfi
 					return nil, fmt.Errorf("drm parameter %q, but pre-encrypted asset %s cannot be encrypted again",
 						cfg.DRM, a.AssetPath)
 				}
+				prepared := false
+				for _, r := range as.Representations {
+					if rd, ok := a.Reps[r.Id]; ok && rd.encData != nil {
+						prepared = true
+					}
+				}
+				if !prepared {
+					break // Codec not prepared for encryption: served in the clear, so nothing to announce
+				}
 				switch cfg.DRM {
 				case "eccp-cenc", "eccp-cbcs":
 					if a.refRep.PreEncrypted {
